@@ -299,6 +299,30 @@ theorem trans_refines_tentative_queue [BEq α] (c : Cfg) (x : α) (es : List (TE
   obtain ⟨g, hi, hr⟩ := trun_inv c (tinit c x) (tginit c) {} es (tinv_init c x) (specRel_init c) hok
   exact trans_facts c s g q e hi hr
 
+/-- **The reset values of the flags are not optimistic either** (first cycles after power-on / reset release, before
+the flag registers have sampled a level): like `almostFull_not_optimistic`, but the level the `af` register "refers to"
+before the first push-clock edge may be ANY `d < N` — its reset value '0' is right for every level below the depth
+(`level = N`, where the indication is constantly true by definition, is the one exception: see `C15/Lemmas.lean`).
+`ae` resets to '1', which `almostEmpty_not_optimistic` covers for every level. -/
+theorem almostFull_not_optimistic_from_reset (c : Cfg) (x : α) (es : List (Ev α)) (hw : Wf c es) (d : Nat) (hd : d < c.N)
+    (hl : lastAf d es ≤ c.N) (h : (run c (init c x) es).core.af = false) :
+    fill (trace c (init c x) es) + lastAf d es < c.N := by
+  obtain ⟨h1, h2, h3, h4, h5, _⟩ := grun_spec c (ginitL c x d) es (ginv_ginitL c x d hd) hw
+  rw [proj_ginitL] at h2 h3 h4
+  have i := h1.inv
+  have hh : (grun c (ginitL c x d) es).a.g.hist = accepted (trace c (init c x) es) := by simpa [ginitL, ginit, ainit] using h3
+  have ho : (grun c (ginitL c x d) es).a.g.out = yielded (trace c (init c x) es) := by simpa [ginitL, ginit, ainit] using h4
+  have hP : (accepted (trace c (init c x) es)).length = (grun c (ginitL c x d) es).a.g.P := by rw [← hh, i.hist_len]
+  have hG : (yielded (trace c (init c x) es)).length = (grun c (ginitL c x d) es).a.g.G := by
+    rw [← ho, i.out_eq, List.length_take, i.hist_len]; have := i.G_le; have := i.oP_le; omega
+  have hcore : (run c (init c x) es).core = (grun c (ginitL c x d) es).a.core := by rw [← h2]; rfl
+  have hlvl : (grun c (ginitL c x d) es).a.g.afLvl = lastAf d es := h5
+  rw [hcore] at h
+  have := i.af_ok (by rw [hlvl]; exact hl) h
+  rw [hlvl] at this
+  have := i.G_le; have := i.oP_le
+  unfold fill; rw [hP, hG]; omega
+
 /-! ### non-vacuity -/
 
 private def ev (pc qc push : Bool) (d : Nat) (pop : Bool) : Ev Nat :=
